@@ -594,7 +594,7 @@ static Boolean LayoutWord(tStrComp const* pExpr, struct sLayoutCtx* pCtx) {
         TranslateString(t.Contents.str.p_str, t.Contents.str.len);
 
         for (z = 0; z < t.Contents.str.len; z++) {
-            if (!pCtx->Put16I(t.Contents.str.p_str[z], pCtx)) {
+            if (!pCtx->Put16I((unsigned char)t.Contents.str.p_str[z], pCtx)) {
                 LEAVE;
             }
         }
@@ -720,7 +720,7 @@ static Boolean LayoutDoubleWord(tStrComp const* pExpr, struct sLayoutCtx* pCtx) 
         TranslateString(erg.Contents.str.p_str, erg.Contents.str.len);
 
         for (z = 0; z < erg.Contents.str.len; z++) {
-            if (!pCtx->Put32I(erg.Contents.str.p_str[z], pCtx)) {
+            if (!pCtx->Put32I((unsigned char)erg.Contents.str.p_str[z], pCtx)) {
                 LEAVE;
             }
         }
@@ -872,7 +872,7 @@ static Boolean LayoutQuadWord(tStrComp const* pExpr, struct sLayoutCtx* pCtx) {
         TranslateString(erg.Contents.str.p_str, erg.Contents.str.len);
 
         for (z = 0; z < erg.Contents.str.len; z++) {
-            if (!pCtx->Put64I(erg.Contents.str.p_str[z], pCtx)) {
+            if (!pCtx->Put64I((unsigned char)erg.Contents.str.p_str[z], pCtx)) {
                 LEAVE;
             }
         }
@@ -964,7 +964,7 @@ static Boolean LayoutTenBytes(tStrComp const* pExpr, struct sLayoutCtx* pCtx) {
         TranslateString(erg.Contents.str.p_str, erg.Contents.str.len);
 
         for (z = 0; z < erg.Contents.str.len; z++) {
-            if (!pCtx->Put80F(erg.Contents.str.p_str[z], pCtx)) {
+            if (!pCtx->Put80F((unsigned char)erg.Contents.str.p_str[z], pCtx)) {
                 LEAVE;
             }
         }
